@@ -46,6 +46,7 @@ def oracle(trace, case, end):
     i = 0
     n = len(trace)
     pending_cancel_check = None
+    pending_liq = None
     while i < n:
         ev = trace[i]
         k = ev[0]
@@ -53,6 +54,8 @@ def oracle(trace, case, end):
             break          # the forced close at session end is not a declared order
         if k == 'declare':
             latest[ev[2]] = (ev[3], ev[6], ev[5])
+            if ev[6] == 'liquidate':
+                pending_liq = i          # liquidate() is a request to close NOW: a market exit has to follow within this step
         elif k == 'submit':
             oid, _, typ, side, qty, price, ro, now, cur, reaction = ev[1:11]
             stats['submissions'] += 1
@@ -101,6 +104,11 @@ def oracle(trace, case, end):
                     latest.pop('tp', None)
         elif k == 'after-state':
             stats['after_states'] += 1
+            if pending_liq is not None:
+                if not any(t[0] == 'submit' and t[3] == 'MARKET' and t[7] for t in trace[pending_liq:i]):
+                    probs.append(('liquidate-without-order', {'kind': trace[pending_liq][2]},
+                                  'liquidate() declared %s %s at step %s but no market exit was submitted (position %r)' % (trace[pending_liq][2], trace[pending_liq][3], ev[3], ev[4])))
+                pending_liq = None
             _, _, now, idx, pqty, act, decl = ev
             if pqty != 0:
                 for kind, vname in (('sl', 'stop-loss'), ('tp', 'take-profit')):
@@ -207,6 +215,8 @@ def scenarios():
         out.append(('retrade liquidate same exits', dict(b, enter=again, on_open={'sl': [[2, 0.05]], 'tp': [[2, 0.05]]}, update=[{'at': 1, 'liquidate': True}, {'at': 3, 'liquidate': True}])))
         out.append(('retrade tp-to-market same sl', dict(b, enter=again, on_open={'sl': [[2, 0.05]]}, update=[{'at': 1, 'tp': [[2, 0.0]], 'sl': 'keep'}, {'at': 3, 'tp': [[2, 0.0]], 'sl': 'keep'}])))
         out.append(('retrade at_entry exits', dict(b, enter=again, at_entry={'sl': [[2, 0.05]], 'tp': [[2, 0.05]]}, update=[{'at': 1, 'liquidate': True}])))
+        # liquidate() when its own declaration (whole remaining position at the current price) equals an earlier, already filled one
+        out.append(('liquidate after an equal filled exit', dict(b, enter=ent, on_open={'sl': [[1, 0.0]]}, update=[{'at': 2, 'liquidate': True}])))
         # liquidate()
         out.append(('liquidate', dict(b, enter=ent, on_open={'sl': [[2, 0.05]], 'tp': [[2, 0.05]]}, update=[{'at': 2, 'liquidate': True}])))
     return out
